@@ -413,7 +413,8 @@ func c10Run(c *fw.Ctx) error {
 	hist := c10Histories(maxFiles, maxDocs)
 	c.Res.Bound = fmt.Sprintf("%d histories (<= %d files x 0..%d documents over a %d-document alphabet, incl. empty files) x %d expressions x {default, -N; --header-preprocess=false for 5 of them} on the real binary; the same histories as JSON value streams (-p json -o yaml) x 9 expressions; 6 file orders x 4 expressions for each of 7 other input formats (toml lua xml properties csv tsv json, one document per file); plus eval vs eval-all on every single-document input", len(hist), maxFiles, maxDocs, len(c10Alphabet), len(c10Exprs))
 	var idx int64
-	for _, jsonIn := range []bool{false, true} {
+	// the small sections come first: should the time budget end the enumeration, they are complete
+	product := func(jsonIn bool) {
 		exprs := c10Exprs
 		if jsonIn {
 			exprs = c10JSONExprs
@@ -453,7 +454,7 @@ func c10Run(c *fw.Ctx) error {
 						continue
 					}
 					if c.Expired() {
-						return nil
+						return
 					}
 					cs := c10Case{Files: h, Expr: e, Flags: flags, Mode: "eval", JSON: jsonIn}
 					kind, detail, outcome := c10Check(work, cs)
@@ -528,6 +529,8 @@ func c10Run(c *fw.Ctx) error {
 			}
 		}
 	}
+	product(true)
+	product(false)
 	return nil
 }
 
